@@ -86,7 +86,9 @@ func fillers() []filler {
 		{"none", reflect.TypeOf(G0{}), func(reflect.Value, int) {}},
 		{"nil map", reflect.TypeOf(GMap{}), setF(nil)},
 		{"empty map", reflect.TypeOf(GMap{}), func(n reflect.Value, i int) { n.Elem().FieldByName("F").Set(reflect.ValueOf(map[string]int32{})) }},
-		{"non-empty map", reflect.TypeOf(GMap{}), func(n reflect.Value, i int) { n.Elem().FieldByName("F").Set(reflect.ValueOf(map[string]int32{"k": int32(i)})) }},
+		{"non-empty map", reflect.TypeOf(GMap{}), func(n reflect.Value, i int) {
+			n.Elem().FieldByName("F").Set(reflect.ValueOf(map[string]int32{"k": int32(i)}))
+		}},
 		{"zero time", reflect.TypeOf(GTime{}), setF(nil)},
 		{"non-zero time", reflect.TypeOf(GTime{}), setF(zoo.RefTime)},
 		{"empty string", reflect.TypeOf(GStr{}), setF(nil)},
@@ -97,8 +99,12 @@ func fillers() []filler {
 		{"empty []int32", reflect.TypeOf(GSl{}), func(n reflect.Value, i int) { n.Elem().FieldByName("F").Set(reflect.ValueOf([]int32{})) }},
 		{"[]int32{1}", reflect.TypeOf(GSl{}), func(n reflect.Value, i int) { n.Elem().FieldByName("F").Set(reflect.ValueOf([]int32{1})) }},
 		{"nil *Inner", reflect.TypeOf(GPtr{}), setF(nil)},
-		{"*Inner", reflect.TypeOf(GPtr{}), func(n reflect.Value, i int) { n.Elem().FieldByName("F").Set(reflect.ValueOf(&zoo.Inner{A: int32(i), S: "f"})) }},
-		{"Inner by value", reflect.TypeOf(GVal{}), func(n reflect.Value, i int) { n.Elem().FieldByName("F").Set(reflect.ValueOf(zoo.Inner{A: int32(i), S: "v"})) }},
+		{"*Inner", reflect.TypeOf(GPtr{}), func(n reflect.Value, i int) {
+			n.Elem().FieldByName("F").Set(reflect.ValueOf(&zoo.Inner{A: int32(i), S: "f"}))
+		}},
+		{"Inner by value", reflect.TypeOf(GVal{}), func(n reflect.Value, i int) {
+			n.Elem().FieldByName("F").Set(reflect.ValueOf(zoo.Inner{A: int32(i), S: "v"}))
+		}},
 		{"mid: nil map, zero time, nil slice", reflect.TypeOf(GMid{}), func(reflect.Value, int) {}},
 		{"mid: empty map, time, empty slice", reflect.TypeOf(GMid{}), func(n reflect.Value, i int) {
 			n.Elem().FieldByName("F").Set(reflect.ValueOf(map[string]int32{}))
@@ -374,7 +380,7 @@ func bigFamilies(n int) []struct {
 func init() {
 	core.Register(&core.Prop{
 		ID: "C04", Level: "model_checking",
-		Rule: "Exhaustive enumeration of pointer graphs through the real codec: every assignment of every pointer slot (A,B of each node in {nil,n0..}) for n<=3 (quick; n=4 for 4 fillers) / n<=4 (thorough) nodes, one representative per rooted isomorphism class, for each of 19 filler configurations (nil/empty/non-empty map, zero/non-zero time, empty/non-empty string, nil/non-nil []byte, nil/empty/non-empty []int32, nil/non-nil *struct, struct by value, fillers between the pointer slots); node types with slice-of-pointer and map-of-pointer fields incl. the same slice header or map in two sibling fields (n<=2 quick, n<=3 thorough); rings, double rings, chains with back edges and trees with leaves pointing to the root for every n in 1..64 (quick) / 1..200 (thorough). Oracle: encode returns; R1 resolves every emitted reference (stream order) to the container standing for the same original object; in the decoded graph the pairing original pointer <-> decoded pointer built by a parallel walk is a bijection. Distinct by construction (canonical graph x filler).",
+		Rule:        "Exhaustive enumeration of pointer graphs through the real codec: every assignment of every pointer slot (A,B of each node in {nil,n0..}) for n<=3 (quick; n=4 for 4 fillers) / n<=4 (thorough) nodes, one representative per rooted isomorphism class, for each of 19 filler configurations (nil/empty/non-empty map, zero/non-zero time, empty/non-empty string, nil/non-nil []byte, nil/empty/non-empty []int32, nil/non-nil *struct, struct by value, fillers between the pointer slots); node types with slice-of-pointer and map-of-pointer fields incl. the same slice header or map in two sibling fields (n<=2 quick, n<=3 thorough); rings, double rings, chains with back edges and trees with leaves pointing to the root for every n in 1..64 (quick) / 1..200 (thorough). Oracle: encode returns; R1 resolves every emitted reference (stream order) to the container standing for the same original object; in the decoded graph the pairing original pointer <-> decoded pointer built by a parallel walk is a bijection. Distinct by construction (canonical graph x filler).",
 		Assumptions: []string{"sharing is required for pointers to structs; for slices and maps content and the identity of their pointer elements are compared", "random 200-node graphs of the property text are replaced by enumerated families"},
 		Units: func(tier string) []core.Unit {
 			var us []core.Unit
